@@ -217,21 +217,21 @@ func c14Schemas(thorough bool) (*SPkg, []*Schema) {
 		t.s.Fields = append(t.s.Fields, SField{Name: "self", Kind: "struct", Ref: t.s})
 		return nil
 	})
-	mut("mutually recursive structs", "S", "reject", func(t *c14tmpl) []*SPkg {
+	mut("mutually recursive structs", "S|S2", "reject", func(t *c14tmpl) []*SPkg {
 		s2 := &SDef{Name: "S2", Type: "struct", Pkg: t.p, Fields: []SField{{Name: "back", Kind: "struct", Ref: t.s}}}
 		t.s.Fields = append(t.s.Fields, SField{Name: "fwd", Kind: "struct", Ref: s2})
 		t.p.Defs = append(t.p.Defs, s2)
 		return nil
 	})
-	mut("channel of scalar type (in)", "string", "reject", func(t *c14tmpl) []*SPkg {
+	mut("channel of scalar type (in)", "badch", "reject", func(t *c14tmpl) []*SPkg {
 		t.svc.Methods = append(t.svc.Methods, SMethod{"badch", "(Req) (<-string) Resp"})
 		return nil
 	})
-	mut("channel of scalar type (out)", "int64", "reject", func(t *c14tmpl) []*SPkg {
+	mut("channel of scalar type (out)", "badch", "reject", func(t *c14tmpl) []*SPkg {
 		t.svc.Methods = append(t.svc.Methods, SMethod{"badch", "(Req) (int64->) Resp"})
 		return nil
 	})
-	mut("channel of enum type", "E", "reject", func(t *c14tmpl) []*SPkg {
+	mut("channel of enum type", "badch", "reject", func(t *c14tmpl) []*SPkg {
 		t.svc.Methods = append(t.svc.Methods, SMethod{"badch", "(Req) (<-E) Resp"})
 		return nil
 	})
